@@ -86,6 +86,16 @@ Fixpoint qwrite_all (s : script) (buf : bytes) {struct s} : wres * bytes * scrip
     end
   end.
 
+(* position of the first "%PDF-" in a byte string, 0 if there is none (slice::windows(5).position(..).unwrap_or(0)) *)
+Definition PDF_HDR : bytes := Eval cbv in bs "%PDF-".
+Fixpoint header_offset_from (b : bytes) (i : nat) : option nat :=
+  match b with
+  | [] => None
+  | _ :: b' => if prefixb PDF_HDR b then Some i else header_offset_from b' (S i)
+  end.
+Definition header_offset (b : bytes) : nat :=
+  match header_offset_from b 0 with Some i => i | None => O end.
+
 (* ---- CountingWrite<W> { inner, bytes_written } ---- *)
 Record cw := { cw_inner : script; cw_count : N }.
 
@@ -112,12 +122,18 @@ Section Pipeline.
     end.
 
   (* IncrementalDocument::save_internal starts with
-       target.inner.write_all(prev_document_bytes)?;  target.bytes_written += prev_document_bytes.len();
-     i.e. it bypasses CountingWrite and counts AFTER the write succeeded; then the same pipeline *)
+       target.inner.write_all(prev_document_bytes)?;
+       let header_offset = prev.windows(5).position(|w| w == b"%PDF-").unwrap_or(0);
+       target.bytes_written += prev_document_bytes.len() - header_offset;
+     i.e. it bypasses CountingWrite, counts AFTER the write succeeded, and counts from the file
+     header (offsets in a PDF are relative to the first "%PDF-"); then the same pipeline *)
   Definition cw_write_all_after (c : cw) (buf : bytes) : wres * bytes * cw :=
     let '(r, d, s') := wa (cw_inner c) buf in
     (r, d, {| cw_inner := s';
-              cw_count := match r with WOk => cw_count c + N.of_nat (length buf) | WErr _ => cw_count c end%N |}).
+              cw_count := match r with
+                          | WOk => cw_count c + N.of_nat (length buf - header_offset buf)
+                          | WErr _ => cw_count c
+                          end%N |}).
   Definition run_inc (prev : bytes) (calls : list bytes) (s : script) : wres * bytes * N :=
     let '(r, d, c) := cw_write_all_after {| cw_inner := s; cw_count := 0 |} prev in
     match r with
